@@ -107,11 +107,14 @@ def rule_reader(ctx):
     for c in conds:
         if c[0] == "cmp":
             op, x, y, pol = c[1], c[2], c[3], c[4]
-            if op in ("Lt", "Ge") and T.has_call(x, "::len") and _is_needed(y):
-                have_len = (op == "Lt") != pol
-            if op in ("Gt", "Le") and _is_needed(x) and T.fold_int(y) is not None:
-                if (op == "Gt") != pol:
+            o = Q.oriented(c, lambda z: T.has_call(z, "::len") and not _is_needed(z))
+            if o and _is_needed(o[2]):
+                have_len = o[0] == "Ge"
+            if _is_needed(x) and T.fold_int(y) is not None:
+                if op == "Le":
                     cap = T.fold_int(y)
+                elif op == "Lt":
+                    cap = T.fold_int(y) - 1
             if op in ("Ne", "Eq") and T.strip(y)[0] == "const" and T.strip(y)[1] == 0x16:
                 ctype = (op == "Eq") == pol
     ctx.check(have_len, "R1", "add_bytes:complete", "parse only when buffer.len() >= needed", "parse is attempted before the record is complete", ctx.loc(b, blk))
@@ -300,7 +303,7 @@ def rule_flow(ctx):
     conds_all = []
     for blk in sorted(tb.reachable):
         conds_all += Q.canon_conds(P, T.dom_conds(tb, ST, blk))
-    has5 = any(c[0] == "cmp" and c[1] == "Lt" and T.has_call(c[2], "::len") and T.strip(c[3])[1] == 5 for c in conds_all if c[0] == "cmp")
+    has5 = any(c[0] == "cmp" and ((c[1] in ("Lt", "Ge") and T.fold_int(c[3]) == 5) or (c[1] in ("Le", "Gt") and T.fold_int(c[3]) == 4)) and T.has_call(c[2], "::len") for c in conds_all if c[0] == "cmp")
     has16 = any(c[0] == "cmp" and c[1] in ("Eq", "Ne") and T.strip(c[3])[0] == "const" and T.strip(c[3])[1] == 0x16 for c in conds_all if c[0] == "cmp") or \
         any(s["k"] == "assign" and s["r"]["k"] == "binop" and s["r"]["op"] == "Eq" and "k" in s["r"]["b"] and T.const_value(s["r"]["b"]["k"])[1] == 0x16 for _, _, s in tb.iter_stmts())
     ctx.check(has5 and has16, "R3", "is_tls_traffic", "needs 5 bytes and content type 0x16", "TLS header test lost its length (5) or handshake-type (0x16) check", ctx.loc(tb))
